@@ -63,6 +63,9 @@ pub enum ROp {
     Read(u32),
     /// poll_fill_buf, then consume min(n, len)
     Fill(u32),
+    /// the low-level reader of the public API: when the internal buffer is empty `poll_for_push` (its result must be the number of
+    /// bytes now in `buf()`, 0 exactly at end-of-stream), then `buf()` is inspected and min(n, len) bytes are consumed
+    LowLevel(u32),
     /// read with that buffer size until EOF
     ToEof(u32),
     Drop,
@@ -664,7 +667,7 @@ pub async fn run_reader(cell: StreamCell, stream: usize, end: usize, ops: Vec<RO
     let mut off = 0usize;
     let mut eof = false;
     for op in ops {
-        if eof && matches!(op, ROp::Read(_) | ROp::Fill(_) | ROp::ToEof(_)) {
+        if eof && matches!(op, ROp::Read(_) | ROp::Fill(_) | ROp::ToEof(_) | ROp::LowLevel(_)) {
             // nothing more to read; later Drop/Park/Yield steps of the script still run
             continue;
         }
@@ -738,6 +741,69 @@ pub async fn run_reader(cell: StreamCell, stream: usize, end: usize, ops: Vec<RO
                     }
                     if !to_eof {
                         break;
+                    }
+                }
+            }
+            ROp::LowLevel(consume) => {
+                let mut blocked = false;
+                let r = poll_fn(|cx| {
+                    let mut g = cell.borrow_mut();
+                    match g.as_mut() {
+                        None => Poll::Ready(None),
+                        Some(s) => {
+                            if s.buf().is_empty() {
+                                match s.poll_for_push(cx) {
+                                    Poll::Pending => {
+                                        note_pending(cx);
+                                        if !blocked {
+                                            blocked = true;
+                                            log.app(AppEv::ReadBlocked { stream, end });
+                                        }
+                                        return Poll::Pending;
+                                    }
+                                    Poll::Ready(n) => {
+                                        let have = s.buf().len();
+                                        if n != have {
+                                            log.app(AppEv::Note(format!("api-contract poll_for_push returned {n} with {have} bytes in buf()")));
+                                            // reported through the integrity oracle as a mismatch at the current offset
+                                            log.app(AppEv::DataMismatch { stream, end, offset: usize::MAX, got: n as u8, want: have as u8 });
+                                        }
+                                    }
+                                }
+                            }
+                            let seen = s.buf().to_vec();
+                            let c = (consume as usize).min(seen.len());
+                            Pin::new(s).consume(c);
+                            Poll::Ready(Some((seen, c)))
+                        }
+                    }
+                })
+                .await;
+                match r {
+                    None => return,
+                    Some((seen, c)) => {
+                        if seen.is_empty() {
+                            log.app(AppEv::ReadEof { stream, end });
+                            eof = true;
+                        } else {
+                            let mut bad = false;
+                            for (i, b) in seen.iter().enumerate() {
+                                let want = pay(stream, dir, off + i);
+                                if *b != want {
+                                    log.app(AppEv::DataMismatch { stream, end, offset: off + i, got: *b, want });
+                                    bad = true;
+                                    break;
+                                }
+                            }
+                            if seen.len() > c {
+                                log.app(AppEv::Note(format!("exposed {stream} {end} {}", off + seen.len())));
+                            }
+                            off += c;
+                            log.app(AppEv::ReadOk { stream, end, n: c });
+                            if bad {
+                                return;
+                            }
+                        }
                     }
                 }
             }
